@@ -1,6 +1,6 @@
-/* F12: decoder gain is applied twice to the cross-faded start of a frame that follows a CELT <-> SILK/hybrid
+/* F19: decoder gain is applied twice to the cross-faded start of a frame that follows a CELT <-> SILK/hybrid
    mode change without redundancy (the nested concealment call in opus_decode_frame applies it, then the
-   frame does).  cc repro_F12.c -Iinclude libopus.a -lm */
+   frame does).  cc repro_F19.c -Iinclude libopus.a -lm */
 #include <stdio.h>
 #include <math.h>
 #include "opus.h"
